@@ -43,6 +43,7 @@ type knownFn struct {
 	Sig    string   `json:"sig"`
 	Params []string `json:"params,omitempty"` // parameter names in order ("" when unnamed)
 	Calls  []string `json:"calls"`
+	Writes []string `json:"writes,omitempty"` // receiver fields the body assigns directly (outfield.go)
 }
 
 // declParamNames: the parameter names of a declaration, flattened, in order.
@@ -195,7 +196,7 @@ func genKnownFuncs(repo string) (map[string]knownFn, error) {
 		rel, _ := filepath.Rel(repo, filepath.Dir(p))
 		for _, d := range f.Decls {
 			if fd, ok := d.(*ast.FuncDecl); ok {
-				keys[funcDeclKey(rel, fd)] = knownFn{File: filepath.Base(p), Sig: declSig(fset, fd), Params: declParamNames(fd), Calls: declCalls(fd)}
+				keys[funcDeclKey(rel, fd)] = knownFn{File: filepath.Base(p), Sig: declSig(fset, fd), Params: declParamNames(fd), Calls: declCalls(fd), Writes: declWrites(fd)}
 			}
 		}
 		return nil
